@@ -341,6 +341,11 @@ def run_witness_task(task):
             try:
                 if kind == "closed-resume":
                     script, info = with_time_limit(min(left, task["timeout"]), W.search, su, U, k, K, "closed", resume=True, timeout_s=int(min(left, task["timeout"])))
+                elif kind == "enum":
+                    script, info = with_time_limit(min(left, task["timeout"]), W.search, su, U, k, K, "enum", early=True, timeout_s=int(min(left, task["timeout"])))
+                    if script is None:
+                        script, info2 = with_time_limit(min(left, task["timeout"]), W.search_enumq, su, U, k, K, timeout_s=int(min(left, task["timeout"])))
+                        info = info if script is None else info2
                 elif kind == "idem":
                     script, info = with_time_limit(min(left, task["timeout"]), W.search, su, U, k, K, "idem", timeout_s=int(min(left, task["timeout"])))
                 elif kind == "contract":
